@@ -6,8 +6,8 @@ Run by props/C11.py (and stand-alone):
     python3 props/cases_c11.py [<rvharness> <rvdrv> [seed] [n]]      # part 1: 39 lines per unit of n
 Part 2 (regression-oriented, `n2 = max(40, n // 2)` units): components with parameter-dependent supports (Pareto, Uniform,
 Categorical of different sizes), the quadrature entropy of Mixture<Gaussian> (model with the implementation's bounds,
-and an independent accurate quadrature of -∫ f ln f), f32 moments (Laplace / Uniform / Exponential components), and
-setter histories (cache / state machine).  Every failure is printed as
+and an independent accurate quadrature of -∫ f ln f), f32 moments (Laplace / Uniform / Exponential components), setter histories (cache / state machine), entropies of discrete mixtures (Poisson by `count_entropy_range`, Bernoulli,
+Categorical; model + enumeration of -Σ f ln f) and f64 moments of families whose moments may not exist.  Every failure is printed as
     FAIL<TAB>class<TAB>input line<TAB>implementation answer<TAB>expected"""
 import math, random, struct, subprocess, sys, collections
 
@@ -702,7 +702,132 @@ for line, a in zip(hist_cases, hi):
     if bad is not None:
         fails2.append(('hist', line, a, 'every query of the live mixture equal to a fresh mixture with the same parameters; first difference: ' + bad))
 
-print('cases:', len(cases) + len(sl) + 4 * len(ent_cfg) + 2 * len(mom_cases) + len(hist_cases))
+# ------------------------------------------------------------------------------ (E) entropies of discrete mixtures
+def pois_mix_entropy_ref(ws, rates):
+    """-Σ f ln f of a Poisson mixture by enumeration of its own pmf (log domain)"""
+    top = max(rates)
+    hi = int(top + 14 * math.sqrt(top) + 80)
+    h = 0.0
+    for x in range(hi + 1):
+        lg = math.lgamma(x + 1)
+        l = ref_lse([(math.log(w) if w > 0 else -INF) + x * math.log(r) - r - lg for w, r in zip(ws, rates)])
+        if l > -745:
+            h -= math.exp(l) * l
+    return h
+
+
+dent = []       # (line, class, reference or None)
+for _ in range(N2):
+    k = rng.choice([1, 2, 2, 3, 4])
+    ws = pos_weights(k)
+    rates = [math.exp(rng.uniform(math.log(0.05), math.log(2000))) for _ in range(k)]
+    if rng.random() < 0.3 and k >= 2:      # far-apart rates: the pmf at the midpoint of the extreme means is negligible
+        rates[0], rates[1] = rng.uniform(0.5, 10), rng.uniform(300, 1500)
+        rng.shuffle(rates)
+    dent.append((f'mix.pois.entropy - {L(ws)} {L(rates)}', 'pois.entropy', pois_mix_entropy_ref(ws, rates)))
+    kb = rng.choice([1, 2, 3, 5])
+    wb = pos_weights(kb)
+    ps = [rng.choice([rng.random(), rng.random(), 10 ** rng.uniform(-12, -1), 0.0, 1.0]) for _ in range(kb)]
+    dent.append((f'mix.bern.entropy - {L(wb)} {L(ps)}', 'bern.entropy', None))
+    kc, nc = rng.choice([1, 2, 3]), rng.choice([1, 2, 3, 5, 8])
+    wc = pos_weights(kc)
+    lnws = []
+    for _c in range(kc):
+        raw = [rng.random() if rng.random() < 0.85 else 0.0 for _ in range(nc)]
+        if sum(raw) == 0:
+            raw[0] = 1.0
+        t = sum(raw)
+        lnws.append([math.log(r / t) if r > 0 else -INF for r in raw])
+    fx = [sum(w * math.exp(lw[x]) for w, lw in zip(wc, lnws)) for x in range(nc)]
+    dent.append(('mix.cat.entropy - %s %s' % (L(wc), ' '.join(['L%d' % kc] + [L(lw) for lw in lnws])), 'cat.entropy',
+                 -sum(f * math.log(f) for f in fx if f > 0)))
+dent += [(f'mix.pois.entropy - {L([0.5, 0.5])} {L([5.0, 500.0])}', 'pois.entropy', pois_mix_entropy_ref([0.5, 0.5], [5.0, 500.0])),
+         (f'mix.pois.entropy - {L([0.3, 0.7])} {L([2.5, 800.0])}', 'pois.entropy', pois_mix_entropy_ref([0.3, 0.7], [2.5, 800.0]))]
+dl = [c[0] for c in dent]
+di, dm = run(H, dl), run(D, dl)
+pois_err = []
+for (line, cls, ref), a, b in zip(dent, di, dm):
+    stats[cls] += 1
+    if not (cmp(a, b, 1e-10, 1e-13)):
+        fails2.append((cls, line, a, b))
+    elif ref is not None and a.startswith('x') and len(a) == 17:
+        # the definition: entropy() = -Σ f ln f of the mixture's own pmf
+        err = abs(tf(a) - ref)
+        stats[cls + '.reference'] += 1
+        if cls == 'pois.entropy':
+            pois_err.append(err)
+        if not err <= 5e-9 * max(1.0, abs(ref)):
+            fails2.append((cls + '.reference', line, a, fb(ref) + f'   (-Σ f ln f = {ref!r}, |error| = {err:.3e})'))
+
+# ------------------------------------------------------------------------------ (F) f64 moments that may not exist
+def thr(v0):
+    """a degrees-of-freedom / shape parameter straddling the existence thresholds 1, 2, 4"""
+    return rng.choice([0.5, 1.0, nextafter(1.0, 2.0), 1.5, 2.0, nextafter(2.0, 3.0), 2.5, 3.0, 4.0, nextafter(4.0, 5.0), 5.0, 30.0,
+                       rng.uniform(0.2, 6.0)])
+
+
+xm_cases = []
+for _ in range(N2):
+    k = rng.choice([1, 2, 2, 3, 5])
+    ws = pos_weights(k)            # zero weights included: existence does not depend on the weight
+    fam = rng.choice(['studentst', 'invgamma', 'invchi2', 'sinvchi2', 'pareto'])
+    if fam in ('studentst', 'invchi2'):
+        P = L([thr(0) for _ in range(k)])
+    else:
+        P = ' '.join(['L%d' % k] + [fb(thr(0)) + ' ' + fb(10 ** rng.uniform(-1, 1)) for _ in range(k)])
+    xm_cases.append(f'mix.f64.moments - {fam} {L(ws)} {P}')
+xm_cases += [f'mix.f64.moments - studentst {L([0.5, 0.5])} {L([1.5, 5.0])}',
+             f'mix.f64.moments - invgamma {L([0.0, 1.0])} L2 {fb(1.5)} {fb(1.0)} {fb(3.0)} {fb(2.0)}']
+xi = run(H, xm_cases)
+xs2, xparsed = [], []
+for line, a in zip(xm_cases, xi):
+    t = a.split()
+    try:
+        m_, i = opt_tokens(t, 0)
+        v_, i = opt_tokens(t, i)
+        cm, i = opt_list(t, i)
+        cv, i = opt_list(t, i)
+    except Exception:
+        fails2.append(('f64.moments', line, a, 'parsable answer'))
+        xparsed.append(None)
+        xs2.append('mix.moments - L0 L0 L0')
+        continue
+    ws = [tf(x) for x in line.split()[4:4 + int(line.split()[3][1:])]]
+    xparsed.append((m_, v_, cm, cv, ws))
+    xs2.append(f'mix.moments - {L(ws)} ' + ' '.join(['L%d' % len(cm)] + [enc_opt(x) for x in cm]) + ' ' +
+               ' '.join(['L%d' % len(cv)] + [enc_opt(x) for x in cv]))
+xm = run(D, xs2)
+for line, a, pr, b in zip(xm_cases, xi, xparsed, xm):
+    if pr is None:
+        continue
+    stats['f64.moments'] += 1
+    m_, v_, cm, cv, ws = pr
+    # existence clause (C11.mean_isNone_iff / variance_isNone_iff): None iff some component — whatever its weight —
+    # lacks a mean (for the mean), a mean or a variance (for the variance)
+    want_m_none = any(x is None for x in cm)
+    want_v_none = any(x is None for x in cm) or any(x is None for x in cv)
+    if (m_ is None) != want_m_none:
+        fails2.append(('f64.mean.existence', line, a, 'mean ' + ('N' if want_m_none else 'S …') + '  (some component mean is None: %s)' % want_m_none))
+    if (v_ is None) != want_v_none:
+        fails2.append(('f64.variance.existence', line, a, 'variance ' + ('N' if want_v_none else 'S …') +
+                       '  (some component lacks a mean or a variance: %s)' % want_v_none))
+    t = b.split()
+    try:
+        em, i = opt_tokens(t, 0)
+        ev, i = opt_tokens(t, i)
+    except Exception:
+        fails2.append(('f64.moments', line, a, 'model answer ' + b))
+        continue
+    ok = (m_ is None) == (em is None) and (v_ is None) == (ev is None)
+    if ok and m_ is not None:
+        ok = close(m_, em, 1e-12, 1e-300)
+    if ok and v_ is not None:
+        scale = sum(w * ((m or 0.0) ** 2 + abs(v or 0.0)) for w, m, v in zip(ws, cm, cv))
+        ok = close(v_, ev, 1e-12, 0.0) or (math.isfinite(scale) and abs(v_ - ev) <= 1e-14 * scale)
+    if not ok:
+        fails2.append(('f64.moments', line, a, 'model mix.moments: ' + b))
+
+print('cases:', len(cases) + len(sl) + 4 * len(ent_cfg) + 2 * len(mom_cases) + len(hist_cases) + len(dl) + 2 * len(xm_cases))
 for c in sorted(stats):
     print(f'  {c:40s} {stats[c]:6d}   bit-different: {bitdiff.get(c, 0)}')
 print('model/implementation mismatches beyond tolerance:', len(fails) + len(fails2))
@@ -721,3 +846,7 @@ for name, be in (('inside the domain of the bound', sorted(base_err)), ('outside
         q = lambda p: be[min(len(be) - 1, int(p * len(be)))]
         print('entropy baseline |entropy() - ref| %s: n=%d median=%.2e p90=%.2e p99=%.2e max=%.2e (tolerance %.1e)'
               % (name, len(be), q(0.5), q(0.9), q(0.99), be[-1], ENTROPY_TOL))
+if pois_err:
+    pe = sorted(pois_err)
+    print('Mixture<Poisson> entropy baseline |entropy() - (-Σ f ln f)|: n=%d median=%.2e max=%.2e (tolerance 5e-9·max(1,|H|))'
+          % (len(pe), pe[len(pe) // 2], pe[-1]))
